@@ -3,6 +3,7 @@ module verif/harness
 go 1.24.1
 
 require (
+	github.com/anishathalye/porcupine v1.3.0
 	github.com/semihalev/twig v0.0.0
 	simrt v0.0.0
 )
